@@ -128,6 +128,26 @@ var props = []*prop{
 		Fuzz:        &fuzzCfg{Target: "FuzzC06", Seconds: 300},
 	},
 	{
+		ID: "C13", Pkg: "c13", Level: "exploration",
+		Technique:   "property-based testing (rapid): exact big.Rat arithmetic as oracle, plus the metamorphic relation 'all Go carriers of one mathematical value get the same verdict'",
+		LevelText:   "Generated (value, carrier kind, constraint, entry point) tuples with exactly representable values over all signed/unsigned integer kinds, float32, float64 and json.Number, through AgainstSchema, parameter and header validators and the exported helpers incl. the *NativeType facades; verdicts compared with exact rational arithmetic and across carriers.",
+		LevelNote:   "Trusted: internal/simplemodel numeric helpers (big.Rat; a float64 constraint is read as its shortest decimal text), the domain reading stated in DESIGN.md (constraints the declared type/format cannot represent are excluded and counted).",
+		Assumptions: trusted,
+		Builds:      plain,
+		Quick:       budget{Shards: 14, Checks: 15000, TimeoutS: 300},
+		Thorough:    budget{Shards: 14, Checks: 400000, TimeoutS: 3000},
+	},
+	{
+		ID: "C16", Pkg: "c16", Level: "exploration",
+		Technique:   "property-based differential testing (rapid) of parameter/header/items validators against an independent simple-schema evaluator over typed Go values",
+		LevelText:   "Generated simple-schema definitions (type, format, enum, numeric, string, array constraints, items nested to depth 4) x typed Go values of matching and non-matching kinds; valid <=> the independent evaluator says the value has the declared type and meets every constraint at every items level; nil is not validated.",
+		LevelNote:   "Trusted: internal/simplemodel (independent of the library; unit-tested), strfmt.Default as the meaning of date/uuid/email. The open header finding is replicated exactly; array-valued enum members against differently typed Go slices and mixed-carrier uniqueItems are outside the domain and counted.",
+		Assumptions: trusted,
+		Builds:      plain,
+		Quick:       budget{Shards: 14, Checks: 15000, TimeoutS: 300},
+		Thorough:    budget{Shards: 14, Checks: 400000, TimeoutS: 3000},
+	},
+	{
 		ID: "C14", Pkg: "c14", Level: "exploration",
 		Technique:   "property-based testing (rapid) of each exported helper against independently re-stated textbook definitions, plus purity (call twice, arguments compared with a pristine copy)",
 		LevelText:   "One generated helper invocation per case over typed argument descriptors (all numeric kinds, strings incl. invalid UTF-8, nested containers, typed/untyped nils, every operation context, nil/default/custom registries); expected verdict from definitions written on the descriptors with exact rationals and Unicode simple case folding; verdict, purity and absence of panics checked. Exploration is the right level for an all-inputs claim about 13 small pure functions.",
